@@ -78,12 +78,12 @@ func (o Option) IsEmpty() bool {
 // 可选参数 map
 type Options map[Tag]Option
 
-func (o Options) Add(opt Option) {
-	if o == nil {
-		o = make(Options)
+func (o *Options) Add(opt Option) {
+	if *o == nil {
+		*o = make(Options)
 	}
 
-	o[Tag(opt.tag)] = opt
+	(*o)[Tag(opt.tag)] = opt
 }
 
 func (o Options) String() string {
@@ -121,7 +121,7 @@ func (o Options) Serialize() []byte {
 }
 
 func (o Options) TP_udhi() uint8 {
-	if val, exist := o[TAG_TP_udhi]; exist {
+	if val, exist := o[TAG_TP_udhi]; exist && len(val.value) > 0 {
 		return val.value[0]
 	}
 	return 0
